@@ -280,6 +280,7 @@ func run(c *lib.Ctx) {
 	downness(c, bks, rng)
 	retryAccounting(c, bks)
 	cancelNotFailure(c, bks)
+	busyHealthyNotDown(c, bks)
 	clientWriteNotFailure(c, bks)
 	socketBurst(c, bks)
 	c.Count("hook_points_hit", atomic.LoadInt64(&hookHits))
@@ -686,6 +687,99 @@ func downness(c *lib.Ctx, bks []*backend, rng *lib.Rng) {
 			c.Count("recovery_checks", 1)
 		}
 		c.Nontrivial(fmt.Sprintf("downness/%d/%d", mf, r))
+		u.up.Stop()
+	}
+}
+
+// busyHealthyNotDown: host 0 is down (max_fails unexpired failures), host 1 has
+// no failure and no connection limit but is busy with a request. A further
+// request finds exactly one backend that is not down - host 1 - and must be
+// forwarded to it, under every policy.
+func busyHealthyNotDown(c *lib.Ctx, bks []*backend) {
+	atomic.StoreInt32(&delayOn, 0)
+	for r, pol := range []string{"least_conn", "round_robin", "random", "first", "least_conn", "ip_hash"} {
+		open := make(chan struct{})
+		close(open)
+		for _, b := range bks {
+			b.gate.Store(open)
+		}
+		st := setting{Hosts: 2, Policy: pol, MaxConns: 0, MaxFails: 1 + r%2, FailTimeout: "8s", TryDuration: "0", N: 2}
+		c.Journal("C14 busy-healthy-not-down %s", lib.JSON(st))
+		u, err := mk(st, bks)
+		if err != nil {
+			c.Violation("harness/upstream", err.Error(), st)
+			return
+		}
+		send := func(mode, rid string) (int, string) {
+			req := httptest.NewRequest("GET", "/busy", nil)
+			req.RemoteAddr = "127.0.0.1:40000"
+			req.Header.Set("X-Mode", mode)
+			req.Header.Set("X-Rid", rid)
+			rec := httptest.NewRecorder()
+			code, _ := u.p.ServeHTTP(rec, req)
+			if code == 0 {
+				code = rec.Code
+			}
+			return code, rec.Header().Get("X-Backend")
+		}
+		// make host 0 fail until it has max_fails failures (requests that the
+		// policy hands to host 1 are simply answered)
+		for i := 0; i < 60 && int(fails(u.hosts[0])) < st.MaxFails; i++ {
+			send("abort-on-0", fmt.Sprintf("bh%d-f%d", r, i))
+		}
+		c.Eval(1)
+		if int(fails(u.hosts[0])) < st.MaxFails || fails(u.hosts[1]) != 0 {
+			c.Inconclusive(fmt.Sprintf("busy-healthy-not-down round %d: could not bring host 0 down alone (fails %d / %d)", r, fails(u.hosts[0]), fails(u.hosts[1])))
+			u.up.Stop()
+			continue
+		}
+		gate := make(chan struct{})
+		for _, b := range bks {
+			b.gate.Store(gate)
+		}
+		e1 := atomic.LoadInt64(&bks[1].entered)
+		type res struct {
+			code int
+			bk   string
+		}
+		ra, rb := make(chan res, 1), make(chan res, 1)
+		go func() { code, bk := send("ok", fmt.Sprintf("bh%d-a", r)); ra <- res{code, bk} }()
+		parked := waitUntil(func() bool { return atomic.LoadInt64(&bks[1].entered) == e1+1 }, 20*time.Second)
+		if !parked {
+			c.Inconclusive(fmt.Sprintf("busy-healthy-not-down round %d: the first request did not reach host 1", r))
+			close(gate)
+			<-ra
+			u.up.Stop()
+			continue
+		}
+		go func() { code, bk := send("ok", fmt.Sprintf("bh%d-b", r)); rb <- res{code, bk} }()
+		var early *res
+		reached := waitUntil(func() bool {
+			if atomic.LoadInt64(&bks[1].entered) == e1+2 {
+				return true
+			}
+			select {
+			case x := <-rb:
+				early = &x
+				return true
+			default:
+				return false
+			}
+		}, 20*time.Second)
+		c.Count("busy_healthy_backend_rounds", 1)
+		c.Nontrivial(fmt.Sprintf("busy-healthy-not-down/%s/%d", pol, st.MaxFails))
+		switch {
+		case early != nil:
+			c.Violation("C14/healthy-busy-backend-treated-as-down", fmt.Sprintf("policy %s: host 0 is down (%d unexpired failures, max_fails %d), host 1 has no failure and no connection limit and is serving one request; a second request was answered %d (backend %q) instead of being forwarded to host 1", pol, fails(u.hosts[0]), st.MaxFails, early.code, early.bk),
+				map[string]interface{}{"setting": st, "fails_host0": fails(u.hosts[0]), "fails_host1": fails(u.hosts[1]), "conns_host1": conns(u.hosts[1])})
+			rb <- *early
+		case !reached:
+			c.Inconclusive(fmt.Sprintf("busy-healthy-not-down round %d: the second request neither reached host 1 nor returned", r))
+		}
+		close(gate)
+		<-ra
+		<-rb
+		waitUntil(func() bool { return conns(u.hosts[1]) == 0 }, 5*time.Second)
 		u.up.Stop()
 	}
 }
